@@ -1,5 +1,5 @@
 import XalanModel.C17.CountersProofs
-import XalanModel.C17.GroupingProofs
+import XalanModel.C17.FormatListGroupingProofs
 import XalanModel.C17.NavigateProofs
 /-!
 # C17 — `xsl:number` counts per the Recommendation, independent of history; formatting decodes back
@@ -11,10 +11,9 @@ Property theorems only (helper lemmas: `XalanModel/C17/*Proofs.lean`).
   `getPreviousNode` chain from the target — what an empty cache answers (`counters_history_independent`).
   The only hypothesis is that `getPreviousNode` moves backwards in document order (`prev n = some m → m < n`),
   which `getPreviousNode_decreases` proves for the transcribed navigation on every well-formed document.
-* **Counting, specification half.** `number_spec_*`: the list produced by the transcribed navigation +
-  cache equals the XSLT 1.0 §7.7 list (`Spec.lean`) — proved where the code follows the Recommendation;
-  `…_counterexample` theorems exhibit the deviations of the unchanged code (replayed on the real library by
-  `checks/c17.py`, recorded in `known_findings.json`).
+* **Counting, specification half.** `number_spec_partial`: for every well-formed document, instruction and
+  history the list produced by the transcribed navigation + cache is the XSLT 1.0 §7.7 list (`Spec.lean`);
+  the only reservation is the zero list of `level="any"` (`number_spec_any_zero_counterexample`, known finding).
 * **Formatting.** `alpha_roundtrip` (all n ≥ 1, with the 100-slot buffer), `roman_roundtrip` (1…3999, complete
   kernel evaluation), `decimal_roundtrip` (all n, any padding width), over the tables regenerated from
   `ElemNumber.cpp` by `translate/c17_tables.py`.
@@ -72,7 +71,7 @@ example :
 /-- the transcribed `getPreviousNode` satisfies the hypothesis of the history theorems on every well-formed
 document (so they apply to the navigation code, not only to an abstract `prev`) -/
 theorem getPreviousNode_decreases (d : Doc) (hwf : d.WF) (hcl : d.Closed) (c : NumCfg) :
-    ∀ n m, (getPreviousNode d c n).toOption = some m → m < n :=
+    ∀ n m, getPreviousNode d c n = some m → m < n :=
   XalanModel.C17.getPreviousNode_decreases hwf hcl c
 
 /-- one `xsl:number` instruction executed for a sequence of context nodes within one transformation
@@ -87,121 +86,55 @@ def runNumber (d : Doc) (c : NumCfg) (after : Nat → Nat → Bool) : List Count
 (same type and name) and what an explicit `count` attribute trivially satisfies -/
 def CountConsistent (c : NumCfg) : Prop := ∀ a b, c.countAt a b = true → c.countAt b = c.countAt a
 
-/-- **number_spec, full strength** would read: for every well-formed document, every instruction and every
-history, `runNumber d c after [] history = history.map (numberSpec d c.level (c.countAt ·) c.fromP ·)`.
-The unchanged code violates it (the `…_counterexample` theorems below), so it is proved in three parts:
+/-- the list §7.7 defines for node `n` under instruction `c`, as the code prints it: for `level="any"` a zero
+count prints nothing (XSLT 1.0 reads `[0]`, XSLT 2.0 made the empty result normative: `number_spec_any_zero_counterexample`) -/
+def printedSpec (d : Doc) (c : NumCfg) (n : Nat) : List Nat :=
+  match c.level with
+  | .any => (numberSpec d .any (c.countAt n) c.fromP n).filter (· ≠ 0)
+  | l => numberSpec d l (c.countAt n) c.fromP n
 
-`number_spec_any_partial`: `level="any"` **without `from`** and a count pattern that does not match the root
-node: every history yields the §7.7 count, except that a zero count prints nothing (`filter (· ≠ 0)`).
-Missing: `from` (see `number_spec_any_from_counterexample`, `number_spec_from_self_counterexample`), the zero list
-(`number_spec_any_zero_counterexample`), count patterns matching `/`. -/
-theorem number_spec_any_partial (d : Doc) (hwf : d.WF) (hcl : d.Closed) (c : NumCfg) (hl : c.level = .any)
-    (hf : c.fromP = none) (hcons : CountConsistent c) (after : Nat → Nat → Bool)
-    (history : List Nat) (hh : ∀ n ∈ history, n < d.size ∧ c.countAt n 0 = false) :
-    runNumber d c after [] history =
-      history.map fun n => (numberSpec d .any (c.countAt n) none n).filter (· ≠ 0) := by
-  suffices H : ∀ (hist : List Nat) (cs : List Counter), (∀ n ∈ hist, n < d.size ∧ c.countAt n 0 = false) →
-      CountersInv (fun n => (getPreviousNode d c n).toOption) cs →
-      runNumber d c after cs hist = hist.map fun n => (numberSpec d .any (c.countAt n) none n).filter (· ≠ 0) from
-    H history [] hh (fun _ h => by simp at h)
-  intro hist
-  induction hist with
-  | nil => intro _ _ _; rfl
-  | cons n rest ih =>
-    intro cs hh hinv
-    have hn := hh n (by simp)
-    have := getCountList_any_nofrom hwf hcl c hl hf hcons n hn.1 hn.2 after cs hinv
-    simp only [runNumber, List.map_cons, this.1, numberSpec]
-    rw [ih _ (fun m hm => hh m (by simp [hm])) this.2]
-    rfl
-
-/-- `number_spec_any_from_partial`: `level="any"` **with** `from`, in documents where only nodes that have
-children match `from` (sections, chapters — not childless markers), for visited nodes that do not themselves
-match `from`, count pattern not matching `/`: every history prints the §7.7 count (zero prints nothing).
-Missing: childless `from` nodes (`number_spec_any_from_counterexample`), current node matching `from`. -/
-theorem number_spec_any_from_partial (d : Doc) (hwf : d.WF) (hcl : d.Closed) (c : NumCfg) (hl : c.level = .any)
-    (f : Nat → Bool) (hf : c.fromP = some f) (hcons : CountConsistent c)
-    (hleaf : ∀ m, m < d.size → f m = true → (d.lastChild m).isSome = true)
-    (after : Nat → Nat → Bool)
-    (history : List Nat) (hh : ∀ n ∈ history, n < d.size ∧ c.countAt n 0 = false ∧ f n = false) :
-    runNumber d c after [] history =
-      history.map fun n => (numberSpec d .any (c.countAt n) (some f) n).filter (· ≠ 0) := by
-  suffices H : ∀ (hist : List Nat) (cs : List Counter),
-      (∀ n ∈ hist, n < d.size ∧ c.countAt n 0 = false ∧ f n = false) →
-      CountersInv (fun n => (getPreviousNode d c n).toOption) cs →
-      runNumber d c after cs hist = hist.map fun n => (numberSpec d .any (c.countAt n) (some f) n).filter (· ≠ 0) from
-    H history [] hh (fun _ h => by simp at h)
-  intro hist
-  induction hist with
-  | nil => intro _ _ _; rfl
-  | cons n rest ih =>
-    intro cs hh hinv
-    have hn := hh n (by simp)
-    have := getCountList_any_from hwf hcl c hl f hf hcons n hn.1 hn.2.1 hleaf hn.2.2 after cs hinv
-    simp only [runNumber, List.map_cons, this.1, numberSpec]
-    rw [ih _ (fun m hm => hh m (by simp [hm])) this.2]
-    rfl
-
-/-- `number_spec_multiple_partial`: `level="multiple"`, with or without `from`: every history yields the §7.7
-list, provided no visited node itself matches `from`.  Missing: current node matching `from`
-(`number_spec_from_self_counterexample`). -/
-theorem number_spec_multiple_partial (d : Doc) (hwf : d.WF) (hcl : d.Closed) (c : NumCfg)
-    (hl : c.level = .multiple) (hcons : CountConsistent c) (after : Nat → Nat → Bool)
-    (history : List Nat) (hh : ∀ n ∈ history, n < d.size ∧ c.fromMatches n = false) :
-    runNumber d c after [] history =
-      history.map fun n => numberSpec d .multiple (c.countAt n) c.fromP n := by
-  suffices H : ∀ (hist : List Nat) (cs : List Counter), (∀ n ∈ hist, n < d.size ∧ c.fromMatches n = false) →
-      CountersInv (fun n => (getPreviousNode d c n).toOption) cs →
-      runNumber d c after cs hist = hist.map fun n => numberSpec d .multiple (c.countAt n) c.fromP n from
-    H history [] hh (fun _ h => by simp at h)
-  intro hist
-  induction hist with
-  | nil => intro _ _ _; rfl
-  | cons n rest ih =>
-    intro cs hh hinv
-    have hn := hh n (by simp)
-    have := getCountList_multiple hwf hcl c hl hcons n hn.1 hn.2 after cs hinv
-    simp only [runNumber, List.map_cons, this.1, numberSpec]
-    rw [ih _ (fun m hm => hh m (by simp [hm])) this.2]
-    rfl
-
-/-- `number_spec_single_partial`: `level="single"`: every history yields the §7.7 list *of the instruction
-with its `from` attribute removed*; hence the §7.7 list when `from` is absent.  Missing: `from`
-(`number_spec_single_from_counterexample`). -/
-theorem number_spec_single_partial (d : Doc) (hwf : d.WF) (hcl : d.Closed) (c : NumCfg)
-    (hl : c.level = .single) (hcons : CountConsistent c) (after : Nat → Nat → Bool)
-    (history : List Nat) (hh : ∀ n ∈ history, n < d.size) :
-    runNumber d c after [] history =
-      history.map fun n => numberSpec d .single (c.countAt n) none n := by
+/-- **number_spec** (`_partial` only by the zero list of `level="any"`, see `printedSpec`).
+For every well-formed document, every instruction — any level, any `count` (explicit or default), with or
+without `from` — every history of context nodes and every `isNodeAfter` oracle, the navigation code + counters
+cache print for each node exactly the list XSLT 1.0 §7.7 defines for it.  (After the `from` fix
+`proposed/C17-from-handling.diff`; before it the code deviated for `from`, see design/C17.md.) -/
+theorem number_spec_partial (d : Doc) (hwf : d.WF) (hcl : d.Closed) (c : NumCfg) (hcons : CountConsistent c)
+    (after : Nat → Nat → Bool) (history : List Nat) (hh : ∀ n ∈ history, n < d.size) :
+    runNumber d c after [] history = history.map (printedSpec d c) := by
   suffices H : ∀ (hist : List Nat) (cs : List Counter), (∀ n ∈ hist, n < d.size) →
-      CountersInv (fun n => (getPreviousNode d c n).toOption) cs →
-      runNumber d c after cs hist = hist.map fun n => numberSpec d .single (c.countAt n) none n from
+      CountersInv (getPreviousNode d c) cs →
+      runNumber d c after cs hist = hist.map (printedSpec d c) from
     H history [] hh (fun _ h => by simp at h)
   intro hist
   induction hist with
   | nil => intro _ _ _; rfl
   | cons n rest ih =>
     intro cs hh hinv
-    have := getCountList_single hwf hcl c hl hcons n (hh n (by simp)) after cs hinv
-    simp only [runNumber, List.map_cons, this.1, numberSpec]
-    rw [ih _ (fun m hm => hh m (by simp [hm])) this.2]
-    rfl
+    have hn := hh n (by simp)
+    have hstep : (getCountList d c after cs n).2 = printedSpec d c n ∧
+        CountersInv (getPreviousNode d c) (getCountList d c after cs n).1 := by
+      unfold printedSpec
+      cases hl : c.level with
+      | any => simpa [numberSpec] using getCountList_any hwf hcl c hl hcons n hn after cs hinv
+      | single => simpa [numberSpec] using getCountList_single hwf hcl c hl hcons n hn after cs hinv
+      | multiple => simpa [numberSpec] using getCountList_multiple hwf hcl c hl hcons n hn after cs hinv
+    simp only [runNumber, List.map_cons, hstep.1]
+    rw [ih _ (fun m hm => hh m (by simp [hm])) hstep.2]
 
-/-- corollary: `level="single"` **with** `from` prints the §7.7 list for every visited node none of whose proper
-ancestors matches `from` (the nodes for which `from` does not restrict anything) -/
-theorem number_spec_single_from_partial (d : Doc) (hwf : d.WF) (hcl : d.Closed) (c : NumCfg)
-    (hl : c.level = .single) (f : Nat → Bool) (hf : c.fromP = some f) (hcons : CountConsistent c)
-    (after : Nat → Nat → Bool) (history : List Nat)
-    (hh : ∀ n ∈ history, n < d.size ∧ ∀ a ∈ d.ancestors (n + 1) n, f a = false) :
-    runNumber d c after [] history =
-      history.map fun n => numberSpec d .single (c.countAt n) c.fromP n := by
-  rw [number_spec_single_partial d hwf hcl c hl hcons after history (fun n hn => (hh n hn).1)]
+/-- `level="single"` and `level="multiple"`: full strength, the printed list *is* the §7.7 list -/
+theorem number_spec_single_multiple (d : Doc) (hwf : d.WF) (hcl : d.Closed) (c : NumCfg) (hl : c.level ≠ .any)
+    (hcons : CountConsistent c) (after : Nat → Nat → Bool) (history : List Nat) (hh : ∀ n ∈ history, n < d.size) :
+    runNumber d c after [] history = history.map fun n => numberSpec d c.level (c.countAt n) c.fromP n := by
+  rw [number_spec_partial d hwf hcl c hcons after history hh]
   apply List.map_congr_left
-  intro n hn
-  simp only [numberSpec, hf]
-  exact (specSingle_from_irrelevant d (c.countAt n) f n (hh n hn).2).symm
+  intro n _
+  unfold printedSpec
+  cases hlv : c.level with
+  | any => exact absurd hlv hl
+  | single => rfl
+  | multiple => rfl
 
-/-! ### witnesses: the hypotheses are satisfiable, and where the unchanged code leaves §7.7 -/
+/-! ### witnesses -/
 
 /-- `<r><h/><x/><x/><h/><x><x/></x></r>`: 0 = root, 1 = r, 2 = h, 3 = x, 4 = x, 5 = h, 6 = x, 7 = x (child of 6) -/
 def exDoc : Doc := Doc.ofParents [-1, 0, 1, 1, 1, 1, 1, 6]
@@ -210,110 +143,31 @@ def isH (n : Nat) : Bool := n == 2 || n == 5
 
 example : exDoc.WF ∧ exDoc.Closed := ⟨by decide, Doc.ofParents_closed _⟩
 
-/-- non-vacuity of the three partial theorems: a history in shuffled order with repeats on `exDoc` -/
+/-- non-vacuity: `level="any" count="x" from="h"` (childless `from` nodes, one of them visited), shuffled history
+with repeats: the x at 6 is the first x after the h at 5 -/
 example :
-    let c : NumCfg := { level := .any, countAt := fun _ n => isX n, fromP := none }
-    CountConsistent c ∧ (∀ n ∈ [7, 3, 6, 1, 7, 4], n < exDoc.size ∧ c.countAt n 0 = false) ∧
-    runNumber exDoc c (fun a b => decide (a ≤ b)) [] [7, 3, 6, 1, 7, 4] = [[4], [1], [3], [], [4], [2]] := by
-  refine ⟨fun _ _ _ => rfl, by decide, by decide +kernel⟩
-
-example :
-    let c : NumCfg := { level := .multiple, countAt := fun _ n => isX n || n == 1, fromP := some (fun n => n == 0) }
-    CountConsistent c ∧ (∀ n ∈ [7, 3, 6, 7], n < exDoc.size ∧ c.fromMatches n = false) ∧
-    runNumber exDoc c (fun a b => decide (a ≤ b)) [] [7, 3, 6, 7] = [[1, 3, 1], [1, 1], [1, 3], [1, 3, 1]] := by
-  refine ⟨fun _ _ _ => rfl, by decide, by decide +kernel⟩
-
-/-- non-vacuity of `number_spec_any_from_partial`: `from` = the `r` element (node 1, has children), count = `x` -/
-example :
-    let c : NumCfg := { level := .any, countAt := fun _ n => isX n, fromP := some (fun n => n == 1) }
-    CountConsistent c ∧ (∀ m, m < exDoc.size → (m == 1) = true → (exDoc.lastChild m).isSome = true) ∧
-    (∀ n ∈ [7, 3, 6, 2, 4], n < exDoc.size ∧ c.countAt n 0 = false ∧ (n == 1) = false) ∧
-    runNumber exDoc c (fun a b => decide (a ≤ b)) [] [7, 3, 6, 2, 4] = [[4], [1], [3], [], [2]] := by
-  refine ⟨fun _ _ _ => rfl, by decide, by decide, by decide +kernel⟩
-
-/-- `level="any" count="x" from="h"` at node 6: the code answers 3 (the childless `h` at 5 is walked over),
-§7.7 defines 1.  (known finding C17-any-from-childless) -/
-theorem number_spec_any_from_counterexample :
     let c : NumCfg := { level := .any, countAt := fun _ n => isX n, fromP := some isH }
-    (getCountList exDoc c (fun a b => decide (a ≤ b)) [] 6).2 = [3] ∧
-    numberSpec exDoc .any (c.countAt 6) c.fromP 6 = [1] := by
-  exact ⟨by decide +kernel, by decide +kernel⟩
+    CountConsistent c ∧ (∀ n ∈ [7, 3, 6, 1, 7, 4, 5], n < exDoc.size) ∧
+    runNumber exDoc c (fun a b => decide (a ≤ b)) [] [7, 3, 6, 1, 7, 4, 5] = [[2], [1], [1], [], [2], [2], [2]] := by
+  refine ⟨fun _ _ _ => rfl, by decide, by decide +kernel⟩
 
-/-- `level="single"` with count = the `r` element (node 1) and from = the `x` numbered 6, at node 7 (inside 6):
-the only count match among the ancestors lies *outside* the nearest `from` ancestor, so §7.7 defines the empty
-list; the code does not consult `from` and answers `[1]`.  (known finding C17-single-from-ignored) -/
-theorem number_spec_single_from_counterexample :
-    let c : NumCfg := { level := .single, countAt := fun _ n => n == 1, fromP := some (fun n => n == 6) }
-    (getCountList exDoc c (fun a b => decide (a ≤ b)) [] 7).2 = [1] ∧
-    numberSpec exDoc .single (c.countAt 7) c.fromP 7 = [] := by
-  exact ⟨by decide +kernel, by decide +kernel⟩
+/-- non-vacuity: `level="multiple" count="x|r" from="r"`-like instruction (`from` = node 1, itself visited) and
+`level="single"` with `from` = node 6 at node 7 -/
+example :
+    let cm : NumCfg := { level := .multiple, countAt := fun _ n => isX n || n == 1, fromP := some (fun n => n == 1) }
+    let cs : NumCfg := { level := .single, countAt := fun _ n => n == 1, fromP := some (fun n => n == 6) }
+    CountConsistent cm ∧ CountConsistent cs ∧
+    runNumber exDoc cm (fun a b => decide (a ≤ b)) [] [7, 1, 6] = [[3, 1], [1], [3]] ∧
+    runNumber exDoc cs (fun a b => decide (a ≤ b)) [] [7, 6] = [[], [1]] := by
+  refine ⟨fun _ _ _ => rfl, fun _ _ _ => rfl, by decide +kernel, by decide +kernel⟩
 
-/-- current node matches `from` (`count="x|h" from="h"` at the `h` numbered 5): the code prints nothing for
-`any` and for `multiple`; §7.7 looks for `from` only before / above the current node.
-(known finding C17-from-self) -/
-theorem number_spec_from_self_counterexample :
-    let ca : NumCfg := { level := .any, countAt := fun _ n => isX n || isH n, fromP := some isH }
-    let cm : NumCfg := { ca with level := .multiple }
-    (getCountList exDoc ca (fun a b => decide (a ≤ b)) [] 5).2 = [] ∧
-    numberSpec exDoc .any (ca.countAt 5) ca.fromP 5 = [3] ∧
-    (getCountList exDoc cm (fun a b => decide (a ≤ b)) [] 5).2 = [] ∧
-    numberSpec exDoc .multiple (cm.countAt 5) cm.fromP 5 = [4] := by
-  exact ⟨by decide +kernel, by decide +kernel, by decide +kernel, by decide +kernel⟩
-
-/-- a zero count: `level="any" count="x"` at node 2 prints nothing; §7.7 constructs the list `[0]`.
+/-- a zero count: `level="any" count="x"` at node 2 prints nothing; §7.7 (1.0 text) constructs the list `[0]`.
 (known finding C17-any-zero) -/
 theorem number_spec_any_zero_counterexample :
     let c : NumCfg := { level := .any, countAt := fun _ n => isX n, fromP := none }
     (getCountList exDoc c (fun a b => decide (a ≤ b)) [] 2).2 = [] ∧
     numberSpec exDoc .any (c.countAt 2) c.fromP 2 = [0] := by
   exact ⟨by decide +kernel, by decide +kernel⟩
-
-/-- `level="any"` with `from` and a count pattern matching the root (`count="/"`, or the default pattern when
-the root itself is numbered): the as-written condition in `getPreviousNode` passes a null node to
-`getMatchScore`.  (proposed fix C17-getPreviousNode-null.diff; known finding C17-null-from-crash) -/
-theorem number_null_deref_counterexample :
-    let c : NumCfg := { level := .any, countAt := fun _ n => n == 0, fromP := some isH }
-    getPreviousNode exDoc c 0 = .nullDeref ∧ derefsNull exDoc c 0 = true ∧ derefsNull exDoc c 1 = true := by
-  exact ⟨by decide +kernel, by decide +kernel, by decide +kernel⟩
-
-/-- and it cannot happen without `from`, or when the count pattern does not match the root -/
-theorem number_null_deref_only_at_root (d : Doc) (c : NumCfg) (n : Nat) (h : getPreviousNode d c n = .nullDeref) :
-    c.level = .any ∧ c.fromP.isSome = true := by
-  unfold getPreviousNode at h
-  cases hl : c.level with
-  | single => simp [hl] at h
-  | multiple => simp [hl] at h
-  | any =>
-    refine ⟨rfl, ?_⟩
-    simp only [hl] at h
-    cases hf : c.fromP with
-    | some f => rfl
-    | none =>
-      exfalso
-      have : ∀ (fuel pos : Nat), prevAny d c n fuel pos ≠ .nullDeref := by
-        intro fuel
-        induction fuel with
-        | zero => intro pos; simp [prevAny]
-        | succ f ih =>
-          intro pos
-          simp only [prevAny]
-          cases d.prevSib pos with
-          | none =>
-            cases d.parent pos with
-            | none => simp [hf]
-            | some nx =>
-              simp only
-              split
-              · simp
-              · split
-                · simp
-                · exact ih nx
-          | some s =>
-            simp only
-            split
-            · simp
-            · exact ih _
-      exact this _ _ h
 
 /-! ## Alphabetic numbering -/
 
@@ -382,26 +236,61 @@ example : formatDecimal { used := true, sep := [44], size := 3 } 11 1234567 = [4
 /-! ## Number lists -/
 
 /-- **formatList_roundtrip.** For every format string (any mix of the tokens `1`, `01`, `a`, `A`, `i`, `I`, other
-decimal-style tokens, any separators, leader and trailer), every non-empty list of numbers in 1…3999 (the common
-range of all numbering types) is formatted by `formatNumberList` into a string from which `decodeList` —
-splitting at the letter/digit runs and reading the i-th run with the i-th format token's type, the last one
-repeating — recovers exactly the list.  `alnum` (`isXMLLetterOrDigit`) is any predicate that accepts ASCII
-letters and digits and rejects `.`; the numbering types occurring in the format must not be the ones for which
-`getFormattedNumber` raises an error (`TypeOK`).  No grouping (`decimal_grouping` is separate). -/
+decimal-style tokens, any separators, leader and trailer) and every non-empty list of numbers, each of which fits
+the numbering type that the format assigns to its position (`NumFits`: ≥ 1; < 26^100 under an alphabetic token — in
+particular every 64-bit value; ≤ 3999 under a roman token; unbounded under a decimal token), `formatNumberList`
+produces a string from which `decodeList` — splitting at the letter/digit runs and reading the i-th run with the
+i-th format token's type, the last one repeating — recovers exactly the list.  `alnum` (`isXMLLetterOrDigit`) is
+any predicate that accepts ASCII letters and digits and rejects `.`; the numbering types occurring in the format
+must not be the ones for which `getFormattedNumber` raises an error (`TypeOK`).  No grouping
+(`decimal_grouping_roundtrip` covers grouping for a single number). -/
 theorem formatList_roundtrip (alnum : Nat → Bool) (ha : AlnumOK alnum) (fmt : Str) (l : List Nat) (hl : l ≠ [])
-    (hr : ∀ n ∈ l, 1 ≤ n ∧ n ≤ 3999) (ht : ∀ t ∈ numberTypes alnum fmt, TypeOK t) :
+    (hr : ∀ i, i < l.length →
+      NumFits ((numberTypes alnum fmt).getD i ((numberTypes alnum fmt).getLastD 49)) (l.getD i 0))
+    (ht : ∀ t ∈ numberTypes alnum fmt, TypeOK t) :
     ∃ out, formatNumberList alnum {} fmt l = some out ∧ decodeList alnum {} fmt out = some l :=
   formatList_roundtrip_aux alnum ha fmt l hl hr ht
+
+/-- the common-range corollary: numbers in 1…3999 fit every numbering type -/
+theorem formatList_roundtrip_3999 (alnum : Nat → Bool) (ha : AlnumOK alnum) (fmt : Str) (l : List Nat) (hl : l ≠ [])
+    (hr : ∀ n ∈ l, 1 ≤ n ∧ n ≤ 3999) (ht : ∀ t ∈ numberTypes alnum fmt, TypeOK t) :
+    ∃ out, formatNumberList alnum {} fmt l = some out ∧ decodeList alnum {} fmt out = some l := by
+  apply formatList_roundtrip alnum ha fmt l hl _ ht
+  intro i hi
+  have hm : l.getD i 0 ∈ l := by
+    simp [List.getD, List.getElem?_eq_getElem hi]
+  have := hr _ hm
+  exact ⟨this.1, fun _ => Nat.lt_of_le_of_lt this.2 (by decide), fun _ => this.2⟩
+
+/-- **formatList_grouping_roundtrip.** The same with grouping in use: a one-character grouping separator that is
+neither a letter/digit nor `.` nor NUL and does not occur in the format string, any group size ≥ 1.  `decodeList`
+reads a letter/digit run *including* grouping separators as one number. -/
+theorem formatList_grouping_roundtrip (alnum : Nat → Bool) (ha : AlnumOK alnum) (g : Grouping) (sc : Nat)
+    (hu : g.used = true) (hz : g.size ≠ 0) (hs : g.sep = [sc]) (hpsc : alnum sc = false) (hdot : sc ≠ 46) (h0 : sc ≠ 0)
+    (fmt : Str) (hfmt : sc ∉ fmt) (l : List Nat) (hl : l ≠ [])
+    (hr : ∀ i, i < l.length →
+      NumFits ((numberTypes alnum fmt).getD i ((numberTypes alnum fmt).getLastD 49)) (l.getD i 0))
+    (ht : ∀ t ∈ numberTypes alnum fmt, TypeOK t) :
+    ∃ out, formatNumberList alnum g fmt l = some out ∧ decodeList alnum g fmt out = some l :=
+  formatList_roundtrip_grouping_real alnum ha g sc hu hz hs hpsc hdot h0 fmt hfmt l hl hr ht
+
+example :
+    let alnum : Nat → Bool := fun c => (48 ≤ c && c ≤ 57) || (65 ≤ c && c ≤ 90) || (97 ≤ c && c ≤ 122)
+    let g : Grouping := { used := true, sep := [44], size := 3 }
+    formatNumberList alnum g [49, 46, 65] [1234567, 28] = some [49, 44, 50, 51, 52, 44, 53, 54, 55, 46, 65, 66] ∧
+    decodeList alnum g [49, 46, 65] [49, 44, 50, 51, 52, 44, 53, 54, 55, 46, 65, 66] = some [1234567, 28] := by
+  exact ⟨by decide +kernel, by decide +kernel⟩
 
 /-- non-vacuity: format `(1.a-I)` with four numbers (the last token repeats, leader and trailer present) -/
 example :
     let alnum : Nat → Bool := fun c => (48 ≤ c && c ≤ 57) || (65 ≤ c && c ≤ 90) || (97 ≤ c && c ≤ 122)
     let fmt : Str := [40, 49, 46, 97, 45, 73, 41]
     AlnumOK alnum ∧ (∀ t ∈ numberTypes alnum fmt, TypeOK t) ∧
+    (∀ i, i < 4 → NumFits ((numberTypes alnum fmt).getD i ((numberTypes alnum fmt).getLastD 49)) ([123456789012, 18446744073709551615, 1994, 4].getD i 0)) ∧
     formatNumberList alnum {} fmt [12, 27, 1994, 4] =
       some [40, 49, 50, 46, 97, 97, 45, 77, 67, 77, 88, 67, 73, 86, 45, 73, 86, 41] ∧
     decodeList alnum {} fmt [40, 49, 50, 46, 97, 97, 45, 77, 67, 77, 88, 67, 73, 86, 45, 73, 86, 41] = some [12, 27, 1994, 4] := by
-  refine ⟨⟨?_, ?_, ?_, by decide⟩, by decide, by decide +kernel, by decide +kernel⟩
+  refine ⟨⟨?_, ?_, ?_, by decide⟩, by decide, by decide +kernel, by decide +kernel, by decide +kernel⟩
   · intro c h1 h2; simp; omega
   · intro c h1 h2; simp; omega
   · intro c h1 h2; simp; omega
